@@ -228,7 +228,7 @@ TRUSTED = ("Trusted: Coq kernel; extraction (ExtrOcamlBasic) + OCaml driver; Rus
            "stepping); fjall (ordered KV, atomic batch), scru128 (fresh increasing ids), serde_json modelled as oracles. ")
 HYPS = ["id oracle (scru128) hands out fresh ids < 2^128 (checked on every run: ids the implementation returned are fed to the model)",
         "refinement hypotheses hyp_all (Model/Spec.v), each a known-finding class or an input the API cannot produce: "
-        "no import re-using an id under another topic/context (F7), no context 2^128-1 (F8), "
+        "no context 2^128-1 (F8), "
         "imported registration frames carry a persistent TTL, id 0 is not an xs.context frame"]
 
 
@@ -285,8 +285,8 @@ def c20_run(ctx):
             if c["spec"] and (worst is None or worst[0] == "corr"):
                 worst = ("spec", f"{which} store of case {i}", lines, c["spec"][0])
         if ca["hyp_broken_at"] is not None:
-            # the source history left the theorem's hypotheses (e.g. an import re-used an id under another topic:
-            # known-finding class import-id-collision); "observably equal" is not claimed for it
+            # the source history left the theorem's hypotheses (wild histories only: context 2^128-1, ...);
+            # "observably equal" is not claimed for it
             n_outside += 1
             continue
         implb = S.parse_trace(rb["trace"])
